@@ -331,12 +331,35 @@ func (h *handler) startReceiving(ctx context.Context) {
 				return
 			}
 
-			if err = h.dispatcher.Dispatch(ctx, msg); err != nil {
+			if err = h.dispatch(ctx, msg); err != nil {
 				h.disconnect(errors.New("dispatching message failed").Wrap(err))
 				return
 			}
 		}
 	}
+}
+
+// dispatch hands a received message to the dispatcher, which holds pose and
+// component updates back until the next frame of the session and keeps the
+// latest one only.
+func (h *handler) dispatch(ctx context.Context, msg hwebsocket.Msg) error {
+	switch msg.Type {
+	case hagallpb.MsgType_MSG_TYPE_PARTICIPANT_JOIN_REQUEST:
+		// The updates that wait for the frame were sent before the join request:
+		// they are for the session the connection is in now (or for none), not
+		// for the one it is about to join, where the same ids name other things.
+		h.dispatcher.HandleFrame()
+
+	case hagallpb.MsgType_MSG_TYPE_ENTITY_UPDATE_POSE:
+		// An update without a pose is dropped when it is handled: it must not
+		// take the place of the update with a pose that waits for the frame.
+		var eup hagallpb.EntityUpdatePose
+		if err := msg.DataTo(&eup); err == nil && eup.Pose == nil {
+			return nil
+		}
+	}
+
+	return h.dispatcher.Dispatch(ctx, msg)
 }
 
 func (h *handler) handleMessage(ctx context.Context, msg hwebsocket.Msg, responder hwebsocket.ResponseSender) error {
